@@ -276,6 +276,73 @@ func ruleEnc(c *Ctx) []*Ob {
 			why = "the empty key+value case is not normalised to offset 0 like in the sibling encoder"
 		}
 		o.add(sn, "empty key+value offset normalised", c.pos(sib.Pos()), hasEmpty, why)
+		// ... and only then: the edge that replaces the entry's offset by 0 is controlled by emptiness tests of two
+		// different parameters (key and value); zeroing the offset of an entry that still has value bytes makes
+		// it read the start of the buffer
+		eachInstr(sib, func(i ssa.Instruction) {
+			phi, ok := i.(*ssa.Phi)
+			if !ok {
+				return
+			}
+			if bt, isB := phi.Type().Underlying().(*types.Basic); !isB || bt.Info()&types.IsInteger == 0 {
+				return
+			}
+			for k, e := range phi.Edges {
+				if z, isC := constInt(e); !isC || z != 0 {
+					continue
+				}
+				other := false
+				for k2, e2 := range phi.Edges {
+					if k2 != k {
+						if _, isC2 := e2.(*ssa.Const); !isC2 {
+							other = true
+						}
+					}
+				}
+				if !other {
+					continue
+				}
+				pred := phi.Block().Preds[k]
+				ctl := controllingIfs(pred.Instrs[len(pred.Instrs)-1])
+				if iff, isIf := pred.Instrs[len(pred.Instrs)-1].(*ssa.If); isIf {
+					ctl = append(ctl, iff)
+				}
+				params := map[*ssa.Parameter]bool{}
+				for _, iff := range ctl {
+					cmp, isCmp := iff.Cond.(*ssa.BinOp)
+					if !isCmp || (cmp.Op != token.LEQ && cmp.Op != token.LSS && cmp.Op != token.EQL) {
+						continue
+					}
+					if kk, isK := constInt(cmp.Y); !isK || (kk != 0 && kk != 1) {
+						continue
+					}
+					condSlice(cmp.X, func(w ssa.Value) bool {
+						if pp, isP := w.(*ssa.Parameter); isP {
+							params[pp] = true
+						}
+						if call, isCall := w.(*ssa.Call); isCall {
+							if bi, isBi := call.Call.Value.(*ssa.Builtin); isBi && bi.Name() == "len" {
+								for _, og := range origins(call.Call.Args[0]) {
+									if pp, isP := og.(*ssa.Parameter); isP {
+										params[pp] = true
+									}
+								}
+							}
+						}
+						return false
+					})
+				}
+				if len(params) == 0 {
+					continue // not the emptiness normalisation
+				}
+				okBoth := len(params) >= 2
+				why2 := "the offset is replaced by 0 only when both the key and the value are empty"
+				if !okBoth {
+					why2 = "the offset of an entry is replaced by 0 on the emptiness of one length only: an entry with an empty key but value bytes (or vice versa) then points at the start of the buffer and reads back other bytes"
+				}
+				o.add(sn, "offset zeroed only when key and value are both empty", c.instrPos(pred.Instrs[len(pred.Instrs)-1]), okBoth, why2)
+			}
+		})
 	}
 	return o.list
 }
